@@ -16,6 +16,7 @@ RULE = (
     "0xC211/0xC311/0xC411/0xC511 handler exception, 0x0110 for DIMSE-N); response datasets reach the requestor equal to the "
     "handler's; non-trivial = the supplied status is not a plain known int; distinct = distinct (operation, status kind, "
     "dataset kind) (inputs dominate)"
+    " Integer statuses are also supplied as IntEnum members; on the wire a non-Pending C-FIND response must not carry a data set."
 )
 ASSUMPTIONS = ["inputs dominate; schedules add nothing to this property"]
 
